@@ -1,6 +1,10 @@
 //! lqv-core: bounded-exhaustive exploration machinery for the liquid-rust
 //! properties C01..C19 (C20 lives in `lqv-sched`).
+pub mod ast;
 pub mod cfgs;
+pub mod cmp;
+pub mod progen;
+pub mod refl;
 pub mod props;
 pub mod report;
 pub mod run;
@@ -12,6 +16,7 @@ pub fn run_property(id: &str, tier: Tier) -> i32 {
     run::install_panic_hook();
     match id {
         "C01" => props::c01::run(tier),
+        "C04" => props::c04::run(tier),
         _ => {
             eprintln!("unknown property {id}");
             2
